@@ -190,6 +190,20 @@ CLAIMS = {
             "panic-site inventory with interval-lite abstract interpretation on MIR, constant-table evaluation by the "
             "compiler, finite-automaton extraction by abstract interpretation, layout-constant agreement",
             "3/C15"),
+    "C16": ("Decides on built MIR of emit_core::template: Template::eq and what it reaches never range-indexes or splits a str "
+            "(fragments compared as bytes; fixed defect) and every other panic-capable site is discharged or allow-listed; after "
+            "the common prefix both leftover tails are inspected in a loop where a non-text part (a hole) or non-empty text "
+            "returns false; hole labels are compared; Part::write reaches write_text iff Text, write_hole_fmt iff Hole & "
+            "props.get(label)=Some & formatter=Some, write_hole_value iff Hole & Some & no formatter, write_hole_label iff Hole & "
+            "None (guards read off the CFG), looks up and writes the hole's own label and the found value, returns each result; "
+            "Render::write loops over parts() in order and ?-propagates; `&mut W` forwards each Write method; Part::by_ref / "
+            "to_owned rebuild Text as Text and Hole as Hole with every field taken from the same field of the source (label, "
+            "formatter); TemplateKind::parts covers every variant; Template::to_owned goes through Part::to_owned. Not decided: "
+            "that eq is an equivalence insensitive to fragment splitting (a value-level defect for an empty fragment next to a "
+            "hole is known and out of reach).",
+            "custom MIR rules: panic-site inventory with interval-lite discharges, guard-edge conditions, aggregate field "
+            "provenance, forwarding",
+            "3/C16"),
 }
 
 REASONS_NOT_YET = "check not built yet (build in progress; DESIGN.md section 3 lists the planned rules)"
